@@ -625,6 +625,17 @@ func ruleC09R2(r *Run) {
 			continue
 		}
 		facts := p.facts(pred.Instrs[len(pred.Instrs)-1])
+		if iff, isIf := pred.Instrs[len(pred.Instrs)-1].(*ssa.If); isIf && len(pred.Succs) == 2 && pred.Succs[0] != pred.Succs[1] {
+			// the back edge leaves a test directly: its own outcome belongs to the facts of the edge
+			for si, su := range pred.Succs {
+				if su == v.loop.Header {
+					facts = append(append([]rel{}, facts...), p.relOf(guard{Cond: iff.Cond, Pol: si == 0}))
+				}
+			}
+		}
+		if _, infeasible := p.enumSelection(facts); infeasible {
+			continue // the edge past the last case of a switch over every constant of a classification helper
+		}
 		nilFact := holds(facts, errKey, "==", "nil")
 		invFact := holds(facts, "(*testError).isInvalidData("+argOf(errKey)+")", "==", "true") || holdsCallTrue(p, pred, "(*testError).isInvalidData", v.errVal)
 		switch {
@@ -657,7 +668,7 @@ func holdsCallFalse(p *Program, b *ssa.BasicBlock, callee string, arg ssa.Value)
 	return holdsCall(p, b, callee, arg, false)
 }
 func holdsCall(p *Program, b *ssa.BasicBlock, callee string, arg ssa.Value, want bool) bool {
-	for _, g := range guardsOf(b) {
+	for _, g := range append(append([]guard{}, guardsOf(b)...), p.enumGuards(b)...) {
 		cond, pol := g.Cond, g.Pol
 		for {
 			c := p.resolve(cond)
